@@ -83,6 +83,10 @@ OBJECT object END_GROUP End_Object BEGIN_OBJECT begin_group inf nan Infinity -in
 x- -x a,b a;b a=b (a) {a} <a> a#b a&b a~b a|b a!b a%b [a] /* */ a/*b // é µ ٣ １２
 """.split()
 CURATED += ["foo*/", "/*x", "a*/b", "x/*", "*/", "a*b", "a/b"]
+# date-times at the edges of the year range, with zone offsets that push the instant out
+CURATED += ["9999-12-31T23:59:59-07", "0001-01-01T00:00:00+01:00", "9999-365T23:00-1",
+            "0001-001T00:00+12", "9999-12-31T23:59:59.999999Z", "0001-01-01T00:00",
+            "9999-12-31T23:59:59-12:45", "0001-01-01T00:00:00.000001+00:01"]
 # lexemes that mean something to str.format(), the % operator, re and string.Template
 CURATED += ['"{}"', "'{a}'", '"{0}"', '"%s"', '"%(a)s"', "<{m}>", "<%s>", '"{"', '"}"',
             "'{0!r:>{1}}'", '"\\1"', '"$x"', "a{}", "%s", "{0}", "<{>"]
